@@ -284,6 +284,9 @@ class Evaluator:
         else:
             st.assume(z3.ForAll([k], z3.Implies(z3.And(k >= 0, k + 1 < n), arr[k + 1] == arr[k] + s)))
         st.assume(z3.Implies(n > 0, z3.And(arr[n - 1] < b, b <= arr[n - 1] + s)))
+        # transitive form (sound consequence of r[j] - r[i] == s*(j-i) with s >= 1): later elements are at least one step further
+        i, j = z3.Int(fresh_name('i')), z3.Int(fresh_name('j'))
+        st.assume(z3.ForAll([i, j], z3.Implies(z3.And(0 <= i, i < j, j < n), arr[i] + s <= arr[j])))
         return res
 
     # ---- expression dispatcher ---------------------------------------------------------------
